@@ -97,7 +97,7 @@ def judge(est, s, lab, perm):
         if np.any(np.isnan(r)) or np.any(r < 0):
             return "negative-or-nan", "a returned value is NaN or negative"
         if not np.all(np.isfinite(r)):
-            if not is_pep and not lab[np.argmax(s)]:
+            if not is_pep and np.any(~lab[s == s.max()]):      # a decoy holds (or shares) the best score
                 return ("non-finite/best-psm-is-decoy",
                         "q-values are infinite (%d of %d) when the best-scoring PSM is a decoy (FDR with zero targets)"
                         % (int(np.isinf(r).sum()), len(r)))
